@@ -2,6 +2,7 @@ package hls
 
 import (
 	"encoding/hex"
+	"math/bits"
 	"strconv"
 	"sync"
 	"time"
@@ -29,7 +30,19 @@ const (
 func multiplyAndDivide(v, m, d int64) int64 {
 	secs := v / d
 	dec := v % d
-	return (secs*m + dec*m/d)
+
+	// when both m and d are clock rates, dec*m can exceed int64:
+	// compute it with a 128-bit intermediate.
+	neg := dec < 0
+	if neg {
+		dec = -dec
+	}
+	hi, lo := bits.Mul64(uint64(dec), uint64(m))
+	q, _ := bits.Div64(hi, lo, uint64(d))
+	if neg {
+		return secs*m - int64(q)
+	}
+	return secs*m + int64(q)
 }
 
 // ToStream maps a HLS stream to a MediaMTX stream.
